@@ -43,6 +43,10 @@ enum OpKind {
     /// an event handed to the dispatcher directly (`tracing::Event::dispatch`, what bridges
     /// that build events themselves do): it skips the `enabled()` pre-check the macros make
     EmitDirect,
+    /// something that asks the layer's pre-check without completing an event: a span is
+    /// created and dropped, or `tracing::enabled!` is evaluated
+    Span,
+    Probe,
     /// tracing re-evaluates every call site's cached interest (it does so whenever a
     /// subscriber is created or dropped anywhere in the process); here the calling thread
     /// triggers it
@@ -78,6 +82,8 @@ fn op_name(o: OpKind) -> String {
         OpKind::IsEnabled => "is_enabled".into(),
         OpKind::Emit(i) => format!("emit@{i}"),
         OpKind::EmitDirect => "emit_direct".into(),
+        OpKind::Span => "span".into(),
+        OpKind::Probe => "probe_enabled".into(),
         OpKind::Rebuild => "rebuild_interest".into(),
     }
 }
@@ -184,6 +190,13 @@ fn thread_body(b: Arc<Baton>, tid: usize, ops: Vec<OpKind>, log: Arc<Mutex<Vec<E
             }
             OpKind::Emit(site) => res = Some(emit(site)),
             OpKind::EmitDirect => res = Some(emit_direct()),
+            OpKind::Span => {
+                let s = tracing::info_span!("verif_span");
+                let _g = s.enter();
+            }
+            OpKind::Probe => {
+                let _ = tracing::enabled!(tracing::Level::INFO);
+            }
             OpKind::Rebuild => tracing::callsite::rebuild_interest_cache(),
         }));
         let ret = clock.fetch_add(1, Ordering::SeqCst);
@@ -219,7 +232,7 @@ fn run(mut t: Tape) -> RunOut {
         for _ in 0..n {
             let o = match t.choose(15) {
                 12 | 13 => OpKind::Emit(t.choose(2) as usize),
-                14 => *t.pick(&[OpKind::Rebuild, OpKind::EmitDirect, OpKind::EmitDirect]),
+                14 => *t.pick(&[OpKind::Rebuild, OpKind::EmitDirect, OpKind::EmitDirect, OpKind::Span, OpKind::Probe]),
                 0 | 1 | 2 => OpKind::IsEnabled,
                 3 => OpKind::Enable,
                 4 => OpKind::Disable,
@@ -420,8 +433,9 @@ fn thread_pass(events: &[Event], tid: usize, v: &Variant) -> Result<Vec<GOp>, St
                     tokens.remove(&e.token);
                 }
             }
-            // re-evaluating cached interests changes nobody's view
-            OpKind::Rebuild => {}
+            // re-evaluating cached interests, creating a span and asking whether a level is
+            // enabled change nobody's view
+            OpKind::Rebuild | OpKind::Span | OpKind::Probe => {}
             // an event is delivered exactly when the emitting thread's view says "enabled"
             OpKind::IsEnabled | OpKind::Emit(_) | OpKind::EmitDirect => {
                 let got = e.res.unwrap_or(false);
